@@ -15,7 +15,9 @@ namespace vp {
 
 inline int val(int x) { return x; }
 inline int val(long x) { return static_cast<int>(x); }
-inline int val(Tracked const& x) { return x.v; }
+template<int F> int val(TrackedT<F> const& x) { return x.v; }
+inline int val(Init const& x) { return x.v; }
+template<class T> int default_val() { if constexpr(std::is_same_v<T, Init>) { return 77; } else { return 0; } }  // value of a value-initialised element
 inline int val(Pod const& x) { return x.v; }
 
 template<class T> T mk(int x) { if constexpr(std::is_same_v<T, Pod>) { return Pod{x}; } else { return T(x); } }
@@ -57,7 +59,7 @@ struct Machine {
 	using Alloc = typename Cfg::Alloc;
 	using Arr = multi::array<T, D, Alloc>;
 	static constexpr int NS = 4;
-	static constexpr bool tracked = std::is_same_v<T, Tracked>;
+	static constexpr bool tracked = is_tracked<T>::value;
 	std::unique_ptr<Arr> slot[NS];
 	MV model[NS];
 	int alloc_id[NS] = {};   // expected get_allocator().id (stateful allocators)
@@ -383,7 +385,7 @@ struct Machine {
 			case O_CTOR_EXT: {
 				auto e = dec_ext(x, in.op(r, 4)); print_ext(e);
 				slot[a] = make(alloc_id[a], mk_ext<D>(e));
-				if constexpr(!std::is_trivially_default_constructible_v<T>) { MV m; m.ext = e; m.v.assign(static_cast<std::size_t>(m.n()), 0); if(m.n() == 0) { m.ext.assign(static_cast<std::size_t>(D), 0); } model[a] = m; }  // value-initialised
+				if constexpr(!std::is_trivially_default_constructible_v<T>) { MV m; m.ext = e; m.v.assign(static_cast<std::size_t>(m.n()), default_val<T>()); if(m.n() == 0) { m.ext.assign(static_cast<std::size_t>(D), 0); } model[a] = m; }  // value-initialised
 				else {
 					if constexpr(Cfg::stateful) {  // trivial elements must not be written by a sizing constructor: the allocator's paint is still there
 						long n = 1; for(auto q : e) { n *= q; }
@@ -536,7 +538,7 @@ struct Machine {
 						bool inold = old.n() > 0; long oj = 0;
 						for(int k = 0; k < D && inold; ++k) { if(t[k] >= old.ext[static_cast<std::size_t>(k)]) { inold = false; } else { oj = oj*old.ext[static_cast<std::size_t>(k)] + t[k]; } }
 						if(inold && keeps) { m.v[static_cast<std::size_t>(j)] = old.v[static_cast<std::size_t>(oj)]; fresh[static_cast<std::size_t>(j)] = 0; ++common; }
-						else { m.v[static_cast<std::size_t>(j)] = with_val ? fillv : 0; }
+						else { m.v[static_cast<std::size_t>(j)] = with_val ? fillv : default_val<T>(); }
 						++j;
 						int k = D - 1; for(; k >= 0; --k) { if(++t[k] < e[static_cast<std::size_t>(k)]) { break; } t[k] = 0; }
 						if(k < 0) { break; }
